@@ -31,6 +31,7 @@ class TranslateMonitor:
         self.cycle_seen = 0
         self.composite_calls = 0
         self.cells_set = 0
+        self._sessions = []         # open formula translations: {'id': id(cell), 'tokens': [...], 'codes': [...]}
 
     @classmethod
     def install(cls, r):
@@ -44,6 +45,7 @@ class TranslateMonitor:
         mon._wrap_lexer()
         mon._wrap_composite_get()
         mon._wrap_set_cell()
+        mon._wrap_set_sub_cell()
         mon._wrap_set_cell_to_context()
         return mon
 
@@ -75,6 +77,8 @@ class TranslateMonitor:
             finally:
                 mon._lex = None
             mon.r.counters['lexer_sessions'] += 1
+            mon._sessions.append({'id': id(in_cell), 'tokens': list(toks), 'codes': []})
+            del mon._sessions[:-64]
             ok = len(pieces) == len(toks) and None not in pieces
             if ok:
                 rest = expression
@@ -122,8 +126,69 @@ class TranslateMonitor:
                                    'unconsumed': [repr(t)[:60] for t in p[1][:6]], 'code': str(code)[:120]})
             elif p is not None:
                 mon.r.counters['parser_conservation_ok'] += 1
+            mon._operand_conservation(cell, code)
             return orig(ctx, cell, code)
         Context.set_cell = set_cell
+
+    def _operand_conservation(self, cell, code):
+        """every reference token the lexer produced for this formula was resolved by the translator, and every literal
+        token left its code in what was emitted (cell code + sub-cell codes of the session) - otherwise a part of the
+        formula was dropped on the way from tokens to code"""
+        sess = None
+        for i in range(len(self._sessions) - 1, -1, -1):
+            if self._sessions[i]['id'] == id(cell):
+                sess = self._sessions.pop(i)
+                break
+        if sess is None:
+            return
+        emitted = str(code) + '\n' + '\n'.join(sess['codes'])
+        dropped = []
+        for tok in sess['tokens']:
+            cn = tok.__class__.__name__
+            d = getattr(tok, '__dict__', {})
+            if cn == 'CellIdentifierToken':
+                if '_cell' not in d:
+                    self.r.sets.setdefault('unreached_state', set()).add('CellIdentifierToken._cell')
+                    continue
+                c = d['_cell']
+                if c is None or not c.has_handled_identifiers():
+                    dropped.append('ref:' + str(tok.value[0])[:30])
+            elif cn == 'MatrixOfCellIdentifiersToken':
+                if '_matrix' not in d:
+                    self.r.sets.setdefault('unreached_state', set()).add('MatrixOfCellIdentifiersToken._matrix')
+                    continue
+                m = d['_matrix']
+                if not m or m[0] is None or not m[0].has_handled_identifiers():
+                    dropped.append('area:' + str(tok.value[0])[:30])
+            elif cn == 'LiteralToken':
+                v = str(tok.value)
+                if v and v not in emitted:
+                    dropped.append('literal:' + v[:30])
+            elif cn == 'PatternToken':
+                v = repr(str(tok.value[0])[1:-1]) if tok.value else ''
+                if v and v not in emitted:
+                    dropped.append('pattern:' + v[:30])
+        self.r.counters['operand_conservation_checked'] += 1
+        if dropped and 'TEXT(' in str(getattr(cell, 'value', '')).replace(' ', '').replace('\t', '').replace('\n', '') and \
+                all(x.startswith('literal:') for x in dropped):
+            # TEXT(value, format) is a stub that returns its value: the format literal is ignored by design (not a C05 matter)
+            self.r.counters['operand_conservation_text_format_exempt'] += 1
+            dropped = []
+        if dropped:
+            self.r.counters['operand_conservation_broken'] += 1
+            self.events.append({'type': 'operand', 'text': getattr(cell, 'value', None), 'dropped': dropped[:6], 'code': str(code)[:160]})
+
+    def _wrap_set_sub_cell(self):
+        mon = self
+        orig = Context.set_sub_cell
+
+        @functools.wraps(orig)
+        def set_sub_cell(ctx, cell, code):
+            for sess in mon._sessions:
+                if len(sess['codes']) < 4000:
+                    sess['codes'].append(str(code))
+            return orig(ctx, cell, code)
+        Context.set_sub_cell = set_sub_cell
 
     def _wrap_set_cell_to_context(self):
         mon = self
